@@ -147,8 +147,15 @@ class Spec:
             return regs[5] == v, "RF_CH == %d" % v
         if n == "data_rate=" and v in (1, 2, 250) and isint:
             return regs[6] & 0x28 == {1: 0, 2: 8, 250: 0x20}[v], "RF_SETUP rate bits for %d" % v
-        if n == "pa_level=" and isint and v in (-18, -12, -6, 0):
-            return regs[6] & 6 == {-18: 0, -12: 2, -6: 4, 0: 6}[v], "RF_PWR bits for %d dBm" % v
+        if n == "pa_level=":
+            # documented forms: the level alone (LNA "always enabled" by default), or a list/tuple with the level at index 0
+            # and a bool controlling the LNA at index 1 (further indices discarded); theorem C03_pa_level_bits
+            p, lna = v, True
+            if isinstance(v, (list, tuple)) and len(v) > 1:
+                p, lna = v[0], bool(v[1])
+            if isinstance(p, int) and not isinstance(p, bool) and p in (-18, -12, -6, 0):
+                want = {-18: 0, -12: 2, -6: 4, 0: 6}[p] | int(lna)
+                return regs[6] & 7 == want, "RF_PWR bits for %d dBm and LNA_HCURR == %d" % (p, lna)
         if n == "crc=" and isint:
             c = clamp(v, 0, 2)
             want = 0 if c == 0 else (0x08 if c == 1 else 0x0C)
